@@ -155,6 +155,7 @@ impl std::fmt::Debug for St {
     }
 }
 
+#[derive(Clone)]
 struct Cfg {
     worlds: Vec<u8>,
     ticks: u8,
@@ -187,8 +188,8 @@ struct M {
     cfg: Cfg,
     run: Arc<Run>,
     worlds: Vec<Items>,
-    stats: Stats,
-    samples: Mutex<Vec<(u64, Vec<Act>)>>,
+    stats: Arc<Stats>,
+    samples: Arc<Mutex<Vec<(u64, Vec<Act>)>>>,
 }
 
 fn hash_of<T: Hash>(t: &T) -> u64 {
@@ -480,14 +481,24 @@ fn main() {
             Cfg { worlds: vec![1, 2], ticks: 4, drops: 0, dups: 0, acks: 3, cap: 4, send_empty: true },
         ],
         Tier::Thorough => vec![
-            Cfg { worlds: vec![0, 1, 2, 4], ticks: 4, drops: 2, dups: 1, acks: 3, cap: 4, send_empty: false },
-            Cfg { worlds: vec![1, 2, 3, 5], ticks: 4, drops: 1, dups: 1, acks: 3, cap: 4, send_empty: false },
-            Cfg { worlds: vec![1, 4], ticks: 5, drops: 2, dups: 1, acks: 3, cap: 5, send_empty: false },
-            Cfg { worlds: vec![6, 7, 8], ticks: 4, drops: 1, dups: 1, acks: 3, cap: 4, send_empty: false },
-            Cfg { worlds: vec![1, 6, 7], ticks: 5, drops: 0, dups: 1, acks: 3, cap: 4, send_empty: false },
+            // sized on this machine (depth-first): 287 M, 17 M, 298 M, 49 M, 6 M, 6 M states
+            Cfg { worlds: vec![0, 1, 2, 4], ticks: 4, drops: 2, dups: 0, acks: 3, cap: 4, send_empty: false },
+            Cfg { worlds: vec![1, 2, 3, 5], ticks: 4, drops: 1, dups: 0, acks: 3, cap: 4, send_empty: false },
+            Cfg { worlds: vec![1, 4], ticks: 4, drops: 1, dups: 1, acks: 2, cap: 4, send_empty: false },
+            Cfg { worlds: vec![6, 7, 8], ticks: 4, drops: 0, dups: 1, acks: 3, cap: 4, send_empty: false },
+            Cfg { worlds: vec![1, 6, 7], ticks: 4, drops: 1, dups: 0, acks: 3, cap: 4, send_empty: false },
             Cfg { worlds: vec![1, 2, 0], ticks: 4, drops: 1, dups: 0, acks: 3, cap: 4, send_empty: true },
-            Cfg { worlds: vec![0, 1, 2, 4], ticks: 4, drops: 1, dups: 1, acks: 3, cap: 4, send_empty: true },
+            Cfg { worlds: vec![1, 2, 0], ticks: 4, drops: 0, dups: 1, acks: 3, cap: 4, send_empty: true },
         ],
+    };
+    // sizing experiments: VERIF_C13_CFG="0,1,2,4;4;1;1;2;4;0" = worlds;ticks;drops;dups;acks;cap;send_empty
+    let cfgs = match std::env::var("VERIF_C13_CFG") {
+        Ok(v) => {
+            let f: Vec<&str> = v.split(';').collect();
+            let n = |i: usize| f[i].parse::<u8>().expect("number");
+            vec![Cfg { worlds: f[0].split(',').map(|x| x.parse().expect("world")).collect(), ticks: n(1), drops: n(2), dups: n(3), acks: n(4), cap: n(5) as usize, send_empty: n(6) != 0 }]
+        }
+        Err(_) => cfgs,
     };
     let mut total_states = 0u64;
     let mut total_trans = 0u64;
@@ -497,15 +508,25 @@ fn main() {
     for cfg in cfgs {
         let t0 = std::time::Instant::now();
         let label = cfg.label();
-        let m = M { cfg, run: run.clone(), worlds: worlds(), stats: Stats::default(), samples: Mutex::new(Vec::new()) };
+        let m = M { cfg: cfg.clone(), run: run.clone(), worlds: worlds(), stats: Arc::new(Stats::default()), samples: Arc::new(Mutex::new(Vec::new())) };
+        let (m_stats, m_samples) = (m.stats.clone(), m.samples.clone());
         let before = run.num_violations();
-        let c = m.checker().threads(std::thread::available_parallelism().map(|n| n.get()).unwrap_or(8)).spawn_bfs().join();
-        let states = c.unique_state_count() as u64;
-        let trans = c.state_count() as u64;
-        let model = c.model();
+        // every state owns clones of the real Storage and Manager: depth-first search keeps far
+        // fewer of them alive at once (thorough tier); breadth-first gives the shortest
+        // counterexamples (quick tier)
+        let threads = std::thread::available_parallelism().map(|n| n.get()).unwrap_or(8);
+        let (states, trans, max_depth) = if run.tier == Tier::Thorough {
+            let c = m.checker().threads(threads).spawn_dfs().join();
+            (c.unique_state_count() as u64, c.state_count() as u64, c.max_depth())
+        } else {
+            let c = m.checker().threads(threads).spawn_bfs().join();
+            (c.unique_state_count() as u64, c.state_count() as u64, c.max_depth())
+        };
+        // a second instance of the same model re-executes the sampled paths
+        let model = &M { cfg, run: run.clone(), worlds: worlds(), stats: Arc::new(Stats::default()), samples: Arc::new(Mutex::new(Vec::new())) };
         let violated = run.num_violations() > before;
         if !violated {
-            for (key, path) in model.samples.lock().unwrap().iter() {
+            for (key, path) in m_samples.lock().unwrap().iter() {
                 for _ in 0..2 {
                     let mut s = model.init_states().pop().unwrap();
                     for &a in path {
@@ -524,7 +545,7 @@ fn main() {
                 }
             }
         }
-        let st = &model.stats;
+        let st = &m_stats;
         let stats = json!({
             "real_calls": st.calls.load(Ordering::Relaxed),
             "snapshots_accepted_by_receiver": st.accepted.load(Ordering::Relaxed),
@@ -533,9 +554,9 @@ fn main() {
             "acks_naming_unknown_snapshots": st.unknown_snap_acks.load(Ordering::Relaxed),
             "uuid_item_lookups_compared": st.uuid_lookups.load(Ordering::Relaxed),
         });
-        println!("  [{}] states={} transitions={} depth={} {:.1}s{}", label, states, trans, c.max_depth(), t0.elapsed().as_secs_f64(), if violated { " VIOLATED" } else { "" });
+        println!("  [{}] states={} transitions={} depth={} {:.1}s{}", label, states, trans, max_depth, t0.elapsed().as_secs_f64(), if violated { " VIOLATED" } else { "" });
         run.class(&format!("cfg:{}", label), || json!({"states": states, "stats": stats}));
-        cfg_json.push(json!({"cfg": label, "states": states, "transitions": trans, "max_depth": c.max_depth(), "wall_s": t0.elapsed().as_secs_f64(), "stats": stats}));
+        cfg_json.push(json!({"cfg": label, "states": states, "transitions": trans, "max_depth": max_depth, "wall_s": t0.elapsed().as_secs_f64(), "stats": stats}));
         total_states += states;
         total_trans += trans;
         if violated {
@@ -550,7 +571,7 @@ fn main() {
         let mut long_total = 0u64;
         let cfg = Cfg { worlds: vec![1, 2, 6, 7], ticks: 255, drops: 0, dups: 0, acks: 255, cap: 8, send_empty: false };
         let label = cfg.label();
-        let m = M { cfg, run: run.clone(), worlds: worlds(), stats: Stats::default(), samples: Mutex::new(Vec::new()) };
+        let m = M { cfg, run: run.clone(), worlds: worlds(), stats: Arc::new(Stats::default()), samples: Arc::new(Mutex::new(Vec::new())) };
         let lens: &[usize] = if run.tier == Tier::Thorough { &[99, 100, 101, 102, 103, 130, 201, 205, 250] } else { &[101, 103, 205] };
         'outer: for &n in lens {
             for ack_every in [0usize, 1, 7, 50, 100, 101] {
@@ -606,7 +627,7 @@ fn main() {
     run.assume("the state key of the real Storage/Manager objects is the hash of the complete history of operations applied to each (they are deterministic functions of it); states are therefore merged only when both objects have identical histories and the channels/budgets agree - an over-fine key, which costs states but cannot hide any");
     run.assume("the sender follows the storage API exactly as server/src/main.rs does (new_builder, add, finish, add_snap, Delta::write, delta_chunks); the receiver acknowledges ack_tick() or -1; in the empty-when-unchanged configurations a delta without deletions and updates is announced with the data-less SnapEmpty message");
     run.finish(
-        "explicit-state exploration (stateright BFS) of a real sender Storage and a real receiver Manager joined by lossy/duplicating/reordering channels for snapshot messages and acknowledgements; worlds include ordinal items, two UUID types of different sizes a 300-word item that forces a multi-part transfer, and three different worlds with equal checksums; whenever the receiver accepts a tick its snapshot equals the sender's through items() and item(type,id); on error the acknowledged tick does not move to that tick; nothing panics; plus linear histories of 101..250 snapshots delivered in order with acknowledgements never / regularly / once (the stores on both sides hold 100 snapshots)",
+        "explicit-state exploration (stateright, breadth-first at the quick tier, depth-first at the thorough tier) of a real sender Storage and a real receiver Manager joined by lossy/duplicating/reordering channels for snapshot messages and acknowledgements; worlds include ordinal items, two UUID types of different sizes a 300-word item that forces a multi-part transfer, and three different worlds with equal checksums; whenever the receiver accepts a tick its snapshot equals the sender's through items() and item(type,id); on error the acknowledged tick does not move to that tick; nothing panics; plus linear histories of 101..250 snapshots delivered in order with acknowledgements never / regularly / once (the stores on both sides hold 100 snapshots)",
         true,
     );
 }
